@@ -85,6 +85,23 @@ Theorem C29_add_commutes : forall unit d n, valid_dt d ->
   else dt_add unit d n = Ok None.
 Proof. exact dt_add_spec. Qed.
 
+(* Scope of the statement w.r.t. values that are not valid date-times.  `UtcDateTime` derives SBOR
+   `Decode` without validation, so a value such as month = 0 can be produced by decoding bytes,
+   and `to_instant` panics on it (u8 underflow of `self.month - 1`; likewise `23 - hour` before
+   1970, or an out-of-bounds table index for month > 12/13).  The property as written quantifies
+   over "every timestamp in the supported range, every VALID calendar date-time and every input
+   string": conversions are claimed correct and invertible on valid date-times, which are exactly
+   what `new`, `from_instant` and `from_str` can return (C29_new_valid, C29_gregorian,
+   C29_parse_valid).  Decoded invalid values are therefore outside C29 (decoding totality and
+   validation of custom SBOR values belong to the SBOR properties); the model keeps those panic
+   paths, the harness checks them by correspondence, and the boundary is stated here: *)
+Theorem C29_to_instant_outside_valid_can_panic :
+  exists d, ~ valid_dt d /\ @to_instant dt_error d = Panic.
+Proof.
+  exists (mkdt 2000 0 1 0 0 0). split; [|vm_compute; reflexivity].
+  unfold valid_dt. cbn [month]. intros (_ & M & _). destruct M as [M _]. apply M. reflexivity.
+Qed.
+
 (* --- constructor and text form ----------------------------------------------------------------- *)
 
 Theorem C29_new_valid : forall y m d h mi s x,
@@ -135,6 +152,7 @@ Print Assumptions C29_to_from.
 Print Assumptions C29_strictly_increasing.
 Print Assumptions C29_order_is_time_order.
 Print Assumptions C29_add_commutes.
+Print Assumptions C29_to_instant_outside_valid_can_panic.
 Print Assumptions C29_new_valid.
 Print Assumptions C29_print_parse.
 Print Assumptions C29_parse_total.
